@@ -35,7 +35,7 @@ func e2eH1Server() (ln *e2eListener, cancel context.CancelFunc, served chan stru
 }
 
 func VerifE2E_h1_cuts() {
-	vThreads()
+	vSchedulePolicy(vRange("schedulePolicy", 0, 2)) // thread mode, under each of the three scheduling policies
 	ln, cancel, served := e2eH1Server()
 	hb := append([]byte{3, 3}, make([]byte, 32)...)
 	hb = append(hb, 0, 0, 2, 0x13, 0x01, 1, 0)
